@@ -242,7 +242,9 @@ def call_builtin(ip, st, name, pos, kws, node):
         if isinstance(v, Ref):
             cell = st.heap[v.cid]
             if type(cell).__name__ == "PySetCell" and cell.items != "unknown":
-                return [(st, Num(I(len(cell.items))))]
+                n = Num(I(len(cell.items)))
+                n.exact = True          # (comparisons of it with integer literals are decided syntactically: Interp.py_eq)
+                return [(st, n)]
             if isinstance(cell, PyDictCell):
                 return [(st, Num(I(len(cell.items))))]
             if isinstance(cell, ValCell):
@@ -330,6 +332,9 @@ def call_builtin(ip, st, name, pos, kws, node):
         v = pos[0]
         if isinstance(v, Bool):
             return [(st, Num(ITE(v.t, I(1), I(0))))]
+        if name == "int" and len(pos) == 1 and (isinstance(v, Str) or (isinstance(v, Opaque) and v.sort == "Key")):
+            from .lib_split import int_of_string          # int("12") / ValueError
+            return int_of_string(ip, st, v)
         x = ip.num(v)
         if name == "float":
             return [(st, Num(to_real(x)))]
